@@ -742,7 +742,10 @@ def _psm_multiset(case, obs):
             f = case["files"][j]
             cols = [x for x in SPEC_COLS if x in f["data"]]
             ent = (tuple(f["data"][x][r] for x in cols) if case.get("dedup", True) else r)
-            out.append((fn.replace("targets", "*").replace("decoys", "*"), j, str(ent), round(row[sc], 6)))
+            v = float(row[sc])
+            # a non-finite score (degenerate calibration) must compare equal to itself: nan != nan as floats
+            key = (0, round(v, 6)) if v == v and abs(v) != float("inf") else (1, repr(v))
+            out.append((fn.replace("targets", "*").replace("decoys", "*"), j, str(ent), key))
     return sorted(out)
 
 
